@@ -35,6 +35,11 @@ class InjectedTimeout(TimeoutError):
     concurrent.futures and queue-like helpers raise)"""
 
 
+class InjectedNotImplemented(NotImplementedError):
+    """a NotImplementedError raised by user code (the library uses this family
+    internally to signal 'no items() here')"""
+
+
 class InjectedBase(BaseException):
     """not an Exception subclass"""
 
@@ -50,6 +55,7 @@ EXC_KINDS = {
     'key': InjectedKeyError,
     'index': InjectedIndexError,
     'timeout': InjectedTimeout,
+    'notimpl': InjectedNotImplemented,
     'base': InjectedBase,
 }
 EXC_NAME = {v: k for k, v in EXC_KINDS.items()}
@@ -438,17 +444,34 @@ def apply_stage(ds, st, parallel=True):
             kw = {}
             if spec is not None:
                 kw['catch_filter_exception'] = catch_spec_to_arg(spec)
-            return ds.prefetch(st['w'], st['b'], backend=st.get('backend', 't'),
-                               **kw)
+            w, b, backend = par_args(st)
+            return ds.prefetch(w, b, backend=backend, **kw)
         if spec:
             return RefCatchDataset(ds, catch_spec_types(spec))
         return ds
     if op == 'parmap':
         if parallel:
-            return ds.map(MapFn(st['id']), num_workers=st['w'],
-                          buffer_size=st['b'], backend=st.get('backend', 't'))
+            w, b, backend = par_args(st)
+            return ds.map(MapFn(st['id']), num_workers=w, buffer_size=b, backend=backend)
         return ds.map(MapFn(st['id']))
     raise ValueError(op)
+
+
+def par_args(st):
+    """(num_workers, buffer_size, backend) in the spelling the stage asks for"""
+    import numpy as np
+    w, b = st['w'], st['b']
+    backend = st.get('backend', 't')
+    if st.get('alias') and backend == 't':
+        backend = 'thread'
+    num = st.get('num')
+    if num == 'float':
+        b = float(b)
+    elif num == 'half':
+        b = b - 0.5
+    elif num == 'np':
+        w, b = np.int64(w), np.int32(b)
+    return w, b, backend
 
 
 def build(desc, parallel=True):
